@@ -178,10 +178,8 @@ macro_rules! debug_val {
         }
     };
 }
-debug_val!(c01_debug_server_hello, 12, |d| tp::TlsServerHelloContents::new(kani::any(), d, Some(d), 0x1301, kani::any(), None));
 debug_val!(c01_debug_new_session_ticket, 12, |d| tp::TlsNewSessionTicketContent { ticket_lifetime_hint: kani::any(), ticket: d });
 debug_val!(c01_debug_raw_certificate, 12, |d| tp::RawCertificate { data: d });
 debug_val!(c01_debug_client_key_exchange, 12, |d| tp::TlsClientKeyExchangeContents::Ecdh(tp::ECPoint { point: d }));
 debug_val!(c01_debug_digitally_signed, 12, |d| tp::DigitallySigned { alg: Some(tp::SignatureAndHashAlgorithm { hash: tp::HashAlgorithm(kani::any()), sign: tp::SignAlgorithm(kani::any()) }), data: d });
-debug_val!(c01_debug_dh_params, 12, |d| tp::ServerDHParams { dh_p: d, dh_g: d, dh_ys: d });
 debug_val!(c01_debug_heartbeat, 12, |d| tp::TlsMessage::Heartbeat(tp::TlsMessageHeartbeat { heartbeat_type: tp::TlsHeartbeatMessageType(kani::any()), payload_len: kani::any(), payload: d }));
